@@ -17,6 +17,21 @@ structure Obs where
   active : Bool := false              -- introspection said active:true
   deriving Repr, Inhabited
 
+/-- Does the injected error count as "a call into the storage failed"?  Every error does - except the two answers the storage
+    interface (pkg/op/storage.go) documents as part of the protocol: `ErrDuplicateUserCode` from StoreDeviceAuthorization
+    ("try again with a new code") is a failure only when NO attempt of the request succeeded, and `ErrInvalidRefreshToken` from
+    GetRefreshTokenInfo ("this is not a refresh token") is not a failure.  When EVERY storage call of the request failed
+    (`allFailed`) nothing was read or stored, whatever the error values were: that always counts.
+    method: the method the fault schedule names; kind: the injected error value (`wrap:…`: wrapped with %w);
+    failedCalls: calls that really failed; okCallsOfMethod: calls of that method that succeeded in the same request. -/
+def faultCounts (method kind : String) (failedCalls okCallsOfMethod : Nat) (allFailed : Bool) : Bool :=
+  if failedCalls == 0 then false
+  else if allFailed then true
+  else if method == "StoreDeviceAuthorization" && (kind == "ErrDuplicateUserCode" || kind == "wrap:ErrDuplicateUserCode") then
+    okCallsOfMethod == 0
+  else if method == "GetRefreshTokenInfo" && (kind == "ErrInvalidRefreshToken" || kind == "wrap:ErrInvalidRefreshToken") then false
+  else true
+
 /-- was a fault injected into a call this request really made (k within the journal) -/
 def judge (faultHit : Bool) (o : Obs) : Option String :=
   if o.panicked then some "panic"
